@@ -205,8 +205,8 @@ func (fs *FS) OpenFile(name string, flag int, perm hackpadfs.FileMode) (afFile h
 			// O_CREATE|O_EXCL: the file must not exist
 			return nil, &hackpadfs.PathError{Op: "open", Path: name, Err: hackpadfs.ErrExist}
 		}
-		if storeFile.info().IsDir() && flag&(hackpadfs.FlagCreate|hackpadfs.FlagWriteOnly) != 0 {
-			// write-only or create on a directory isn't allowed on hackpadfs.OpenFile
+		if storeFile.info().IsDir() && flag&(hackpadfs.FlagCreate|hackpadfs.FlagWriteOnly|hackpadfs.FlagReadWrite|hackpadfs.FlagTruncate) != 0 {
+			// write access, create or truncate on a directory isn't allowed on hackpadfs.OpenFile
 			return nil, &hackpadfs.PathError{Op: "open", Path: name, Err: hackpadfs.ErrIsDir}
 		}
 		storeFile.flag = flag
